@@ -17,8 +17,9 @@ let handle l =
   | ["benign"] -> String.concat ";" (List.map (fun ((t, c), o) -> Printf.sprintf "%s/%s/%d" (tok_of_str t) (tok_of_str c) (int_of_n o)) report_benign)
   | ["known"] -> String.concat ";" (List.map (fun (((t, c), o), k) -> Printf.sprintf "%s/%s/%d/%s" (tok_of_str t) (tok_of_str c) (int_of_n o) (tok_of_str k)) report_known)
   | ["loops"] ->
-      String.concat ";" (List.map (fun ((((ln, f), a), b), c) ->
-        Printf.sprintf "%d:%s:%s%s%s" (int_of_n ln) (tok_of_str f) (bool_tok a) (bool_tok b) (bool_tok c)) report_loops)
+      (* id:line:method:abcd  -- id is the key (method#ordinal); line is diagnostic only *)
+      String.concat ";" (List.map (fun ((((((i, ln), f), a), b), c), d) ->
+        Printf.sprintf "%s:%d:%s:%s%s%s%s" (tok_of_str i) (int_of_n ln) (tok_of_str f) (bool_tok a) (bool_tok b) (bool_tok c) (bool_tok d)) report_loops)
   | ["maxnest"] -> string_of_int (int_of_n report_max_nesting)
   | ["consuming"] -> String.concat ";" (List.map tok_of_str consuming_calls)
   | _ -> "!badcmd"
